@@ -255,6 +255,8 @@ def main():
     if os.environ.get("VERIF_RUNS"):
         count = int(os.environ["VERIF_RUNS"])
     time_budget = P.get("quick_time", 150) if tier == "quick" else P.get("thorough_time", 1100)
+    if os.environ.get("VERIF_TIME"):
+        time_budget = int(os.environ["VERIF_TIME"])
     wall_cap = P.get("wall_cap", 30)
 
     results = []
